@@ -494,6 +494,16 @@ var dictCheck = &core.Check{Name: "c05/dict", Quick: 3000, Thorough: 250000, Fn:
 		m2[nk.String()] = 7
 		f.Put(keys[0], 9)
 		m2[keys[0].String()] = 9
+		// lookups on the updated dictionary itself agree with the mapping (an insertion in the middle moves
+		// every later pair)
+		for _, k := range append(append([]ref.Bits{}, keys...), nk) {
+			got, ok := f.Get(k)
+			if !ok || got != m2[k.String()] {
+				return fmt.Errorf("%s: Get(%s) = %d,%v after inserting %s into a decoded dictionary of %d keys and updating %s; the mapping has %d", kind.name, k, got, ok, nk, len(keys), keys[0], m2[k.String()])
+			}
+		}
+		// (the order in which the updated dictionary lists its pairs before it is encoded again is not judged: Put
+		// inserts by Compare, which is numeric for signed keys, while a decoded dictionary lists in key-bit order)
 		c3, err := f.Marshal()
 		if err != nil {
 			return fmt.Errorf("%s: dictionary decoded from a foreign encoding and updated: Marshal: %v", kind.name, err)
